@@ -51,8 +51,10 @@ func (l *Lexeme) Multiline() bool { return strings.Contains(l.Text, "\n") }
 var (
 	kIdent  = []models.TokenType{models.TokenTypeIdentifier}
 	kQIdent = []models.TokenType{models.TokenTypeDoubleQuotedString, models.TokenTypeIdentifier}
-	kNum    = []models.TokenType{models.TokenTypeNumber}
-	kStr    = []models.TokenType{models.TokenTypeSingleQuotedString, models.TokenTypeString}
+	// a backtick identifier is an identifier; the quoted-identifier kind is as defensible
+	kBtIdent = []models.TokenType{models.TokenTypeIdentifier, models.TokenTypeDoubleQuotedString}
+	kNum     = []models.TokenType{models.TokenTypeNumber}
+	kStr     = []models.TokenType{models.TokenTypeSingleQuotedString, models.TokenTypeString}
 	// «x»: the documentation says guillemets are "normalized to ASCII" without saying
 	// to which quote, so string and quoted identifier are both defensible.
 	kGStr  = []models.TokenType{models.TokenTypeSingleQuotedString, models.TokenTypeString, models.TokenTypeDoubleQuotedString, models.TokenTypeIdentifier}
@@ -365,7 +367,7 @@ func init() {
 	qi("uquote", "“x”", "x")
 	qi("guillemet-inside", `"a«b"`, "a«b")
 	// backtick identifiers
-	bt := func(name, text, value string) { lx("btident:"+name, "btident", text, value, kIdent) }
+	bt := func(name, text, value string) { lx("btident:"+name, "btident", text, value, kBtIdent) }
 	bt("plain", "`x`", "x")
 	bt("doubled", "`a``b`", "a`b")
 	bt("space", "`a b`", "a b")
